@@ -745,7 +745,7 @@ class DataStoreMachine(StoreMachine):
             elif kd == 'W':
                 ch = [R(3), R(3), R(4), R(6), R(3), R(32)]
             elif kd == 'R':
-                ch = [R(3), R(4)]
+                ch = [R(3), R(6)]
             elif kd in ('MUTATE', 'PERMUTE'):
                 ch = [R(3), R(big), R(big)]
             elif kd == 'SHIPPED':
@@ -794,12 +794,21 @@ class DataStoreMachine(StoreMachine):
         obj.meshfilename = ''
         obj.write(self.path(name + '.dat'), meshfilename=self.mesharg(name, cfg), **kw)
 
-    def read(self, name, cfg):
+    def read(self, name, cfg, reuse=None):
         self._cur_cfg = cfg
         kw = {}
         if cfg.get('fortran'):
             from fixed_format_file import fortran_read_function
             kw['read_function'] = fortran_read_function
+        if reuse is not None:
+            # a long-lived data object reads another file (documented: dat.read(filename))
+            if kw:
+                reuse.read_function = kw['read_function']
+            else:
+                from fixed_format_file import default_read_function
+                reuse.read_function = default_read_function
+            reuse.read(self.path(name + '.dat'), meshfilename=self.mesharg(name, cfg))
+            return reuse
         return self.td.t2data(self.path(name + '.dat'), meshfilename=self.mesharg(name, cfg), **kw)
 
     def compare(self, want, got, cfg, what):
@@ -901,6 +910,14 @@ class DataStoreMachine(StoreMachine):
     def o2_key(self, cfg):
         return '-'
 
+    def o6_view(self, snap):
+        # write() itself brings the list of main-file sections up to date before writing and
+        # takes un-echoed extra-precision sections out of it afterwards; an interrupted write
+        # leaves that list in between, and the next write starts by bringing it up to date again
+        v = dict(snap)
+        v['sections'] = []
+        return v
+
     def exc_key(self, what, e):
         cfg = getattr(self, '_cur_cfg', None) or {}
         xp = cfg.get('xp') or []
@@ -962,7 +979,12 @@ class DataStoreMachine(StoreMachine):
                 'COFT' in secs and 'CONNE' in secs and secs.index('COFT') < secs.index('CONNE')
             self.do_write(slot, name, cfg, fault)
         elif kind == 'R':
-            self.do_read(self.pick_name(ch[0]), None if ch[1] == 3 else ch[1], fault)
+            reuse = None
+            slot = None if ch[1] % 4 == 3 else ch[1] % 4
+            if ch[1] >= 4 and self.objs:
+                slot = self.pick_slot(ch[1])
+                reuse = self.objs[slot]
+            self.do_read(self.pick_name(ch[0]), slot, fault, reuse=reuse)
         elif kind == 'CYCLE':
             self.do_cycle(self.pick_name(ch[0]))
         elif kind == 'SHIPPED':
